@@ -7,6 +7,7 @@ package vharness
 // without one defect drowning the others (DESIGN.md §5.1).
 
 import (
+	"context"
 	"fmt"
 	"runtime"
 	"strings"
@@ -49,6 +50,7 @@ type richCfg struct {
 	Samplers  bool
 	ErrReader bool
 	DblClose  bool
+	Ctx       bool // the worker is configured with a context (which is never cancelled)
 }
 
 func (c richCfg) String() string {
@@ -64,8 +66,8 @@ func (c richCfg) String() string {
 	for i, j := range c.Jobs {
 		js = append(js, fmt.Sprintf("%d:p%d,c%d,w%v,o%d,b%d,pr%d", i, j.Prod, j.Cancel, j.Work, j.Out, j.Batch, j.Prio))
 	}
-	return fmt.Sprintf("rich wk=%v qk=%v conc=%d exp=%v ratio=%d prods=%d purge=%v waiters=%d samplers=%v errReader=%v script=[%s] jobs=[%s]",
-		c.WK, c.QK, c.Conc, c.Expiry, c.Ratio, c.Prods, c.Purge, c.Waiters, c.Samplers, c.ErrReader, strings.Join(sc, " "), strings.Join(js, " "))
+	return fmt.Sprintf("rich wk=%v qk=%v conc=%d exp=%v ratio=%d ctx=%v prods=%d purge=%v waiters=%d samplers=%v errReader=%v script=[%s] jobs=[%s]",
+		c.WK, c.QK, c.Conc, c.Expiry, c.Ratio, c.Ctx, c.Prods, c.Purge, c.Waiters, c.Samplers, c.ErrReader, strings.Join(sc, " "), strings.Join(js, " "))
 }
 
 type richBias struct {
@@ -83,6 +85,7 @@ type richBias struct {
 	// RestartHeavy: scripts made of Stop/Restart/Pause/Resume cycles and jobs that take virtual time,
 	// so that the event loop of a previous run overlaps the next one
 	RestartHeavy bool
+	Ctx          int // percent of programs whose worker is configured with a context (default 35)
 }
 
 func drawRich(r *Rng, b richBias) richCfg {
@@ -174,6 +177,10 @@ func drawRich(r *Rng, b richBias) richCfg {
 	c.Samplers = b.Samplers
 	c.ErrReader = r.Bool()
 	c.DblClose = r.Chance(30)
+	c.Ctx = r.Chance(35)
+	if b.Ctx > 0 {
+		c.Ctx = r.Chance(b.Ctx)
+	}
 	return c
 }
 
@@ -262,6 +269,11 @@ func epRich(c *RunCtx, cfg richCfg) *Result {
 		wcfg = append(wcfg, cfg.Conc)
 		if cfg.Expiry > 0 {
 			wcfg = append(wcfg, varmqExpiry(cfg.Expiry), varmqRatio(uint8(cfg.Ratio)))
+		}
+		if cfg.Ctx {
+			ctx, cancel := context.WithCancel(context.Background())
+			defer cancel()
+			wcfg = append(wcfg, varmq.WithContext(ctx))
 		}
 		s = NewSubject(cfg.WK, k.Work, wcfg...)
 		q = s.Bind(cfg.QK, nil)
@@ -613,6 +625,7 @@ func (rr *richRun) checkAtRest(s *Subject, q *BoundQ, where string) {
 				e.Fail("C01", "lost", "purge", fmt.Sprintf("job %d accepted, never ran, status %s", r.Idx, r.H.Status()))
 			}
 		case runs == 0:
+			e.Fail("C09", "pending-not-resumed", "rich/"+s.W.Status(), fmt.Sprintf("job %d accepted (status %s) has not run after the script's final Resume/Restart; the worker reports %s", r.Idx, statusOf(r), s.W.Status()))
 			e.Fail("C03", "not-run-at-quiescence", "", fmt.Sprintf("job %d accepted (status %s) has not run although the worker is running and nothing can run any more; pending=%d processing=%d", r.Idx, statusOf(r), s.W.NumPending(), s.W.NumProcessing()))
 			e.Fail("C01", "lost", "", fmt.Sprintf("job %d accepted, not cancelled, never ran (status %s)", r.Idx, statusOf(r)))
 		default:
@@ -666,6 +679,36 @@ func (rr *richRun) checkTrace(maxConc int) {
 	for _, c := range ctl {
 		if c.Kind == "Purge" {
 			purgeCall = c.Call
+		}
+	}
+	// C14: the lifecycle calls of the episode come from one controller, one after the other, and the
+	// configured context (if any) is never cancelled: every return value is determined by the
+	// reference machine
+	{
+		m := &fsmModel{state: "Running", hasCtx: cfg.Ctx}
+		var done []string
+		for _, c := range ctl {
+			op := c.Kind
+			switch op {
+			case "Pause", "PauseAndWait", "Resume", "Stop", "WaitAndStop", "Restart":
+			case "TunePool":
+				op = "TuneNew"
+			default:
+				continue
+			}
+			if c.Ret == 0 {
+				break
+			}
+			before := m.state
+			want, got := m.step(op), errClass(c.Err)
+			if op == "TuneNew" && want == "nil" && got == "same" {
+				got = "nil"
+			}
+			done = append(done, fmt.Sprintf("%s=%s", c.Kind, got))
+			if got != want {
+				e.Fail("C14", "lifecycle-return", before+"/"+c.Kind+"/"+got, fmt.Sprintf("%s on a %s worker returned %q, the state machine says %q; calls so far: %s", c.Kind, before, got, want, strings.Join(done, " ")))
+				break
+			}
 		}
 	}
 	// C02 (loose, sound): never more in flight than the largest limit configured in the episode
